@@ -30,6 +30,7 @@ type c19Opts struct {
 	streams       int // per session
 	closeListener bool // a thread closes the listener at any moment
 	deadline      bool
+	sameDeadline  bool // with deadline: the read deadline is set once and not renewed between the two reads
 	clientCloses  bool
 }
 
@@ -138,9 +139,16 @@ func c19Body(o c19Opts) func() {
 						// nothing but the echo ever comes: a second read must time out, not before 30 ms
 						rn, rerr := io.ReadFull(st, one[:12])
 						if rerr == nil {
-							st.SetReadDeadline(vrt.Now().Add(30 * ms))
-							t0 = vrt.VNow()
+							if !o.sameDeadline {
+								st.SetReadDeadline(vrt.Now().Add(30 * ms))
+								t0 = vrt.VNow()
+							}
+							// (sameDeadline: the deadline set once above still stands - as on a socket, it applies to every
+							// later Read until it is changed)
 							_, rerr = st.Read(one)
+							if o.sameDeadline && rerr == ErrTimeout && vrt.VNow()-t0 > int64(30*ms)+int64(20*ms) {
+								vrt.Failf("late-timeout", "second Read under the same 30 ms deadline returned after %d ms", (vrt.VNow()-t0)/1e6)
+							}
 						}
 						_ = rn
 						if rerr == ErrTimeout && vrt.VNow()-t0 < int64(30*ms) {
@@ -252,6 +260,7 @@ func TestVerif_C19(t *testing.T) {
 		mk(c19Opts{name: "one-session-two-streams", sessions: 1, streams: 2}, 1, 2),
 		mk(c19Opts{name: "two-sessions", sessions: 2, streams: 1, clientCloses: true}, 1, 2),
 		mk(c19Opts{name: "read-deadline", sessions: 1, streams: 1, deadline: true}, 1, 2),
+		mk(c19Opts{name: "read-deadline-set-once", sessions: 1, streams: 1, deadline: true, sameDeadline: true}, 1, 2),
 		mk(c19Opts{name: "listener-close-anytime", sessions: 1, streams: 2, closeListener: true}, 1, 2),
 		mk(c19Opts{name: "listener-close-anytime-one-stream", sessions: 1, streams: 1, closeListener: true}, 2, 3),
 	})
